@@ -68,6 +68,9 @@ class Machine:
         self.mirror = mirror
         self.exact_len = False      # mirror mode: the buffer ends exactly where the region ends (its length is known, not a lower bound)
         self.extra_summary = extra_summary
+        self.entry_block = 0        # analysis of ONE ITERATION of a loop: start at a block with given locals ...
+        self.entry_locals = None
+        self.stop_blocks = ()       # ... and treat the arrival at one of these blocks (outermost frame) as the end
         self.from_impl = None       # optional: (error value, current fn) -> name of the crate's From impl that `?` applies to the error
         self.bodies = bodies
         self.spec = spec
@@ -83,12 +86,16 @@ class Machine:
     def run(self):
         sp = self.spec
         body = self.bodies[self.entry]
-        locs = [None] * len(body['locals'])
+        locs = [None] * (len(body['locals']) + 1)        # one extra slot: a log the property's summaries may write (e.g. stack operations)
         for i, a in enumerate(self.entry_args):
             locs[i + 1] = a
+        for i, a in (self.entry_locals or {}).items():
+            locs[i] = a
         h0 = frozenset(sp.closure({(sp.d.start, ())}))
-        st0 = (((self.entry, 0, 0, tuple(locs), None, None, None),), 0, (0, None), (), h0)
+        st0 = (((self.entry, self.entry_block, 0, tuple(locs), None, None, None),), 0, (0, None), (), h0)
+        self._start = True
         st0 = self.canon(st0)
+        self._st0 = st0
         self.parent = {st0: None}
         self.edges = []
         dq = deque([st0])
@@ -497,6 +504,11 @@ class Machine:
         body = self.bodies[fn]
         block = body['blocks'][bb]
         locs = list(locs)
+        if len(frames) == 1 and si == 0 and bb in self.stop_blocks and not (bb == self.entry_block and st is self._st0):
+            self.stats['returns'] += 1
+            for kind, msg in self.claim(self, ('stop', bb, locs[-1]), st):
+                self.findings.append((kind, msg, st, self.where(st)))
+            return []
         if si < len(block['stmts']):
             s = block['stmts'][si]
             if s['k'] == 'dead':
@@ -638,6 +650,8 @@ class Machine:
             return set_dest(args[1]) if a0[2] == 0 else run_closure([a0[3][0]], None)
         if name.endswith('Option::<T>::is_some_and') and is_opt and clo is not None:
             return set_dest(A0) if a0[2] == 0 else run_closure([a0[3][0]], None)
+        if name.endswith('Option::<T>::unwrap_or') and is_opt and len(args) == 2:
+            return set_dest(a0[3][0] if a0[2] == 1 else args[1])
         if name.endswith('Option::<T>::ok_or') and is_opt and len(args) == 2:
             return set_dest(('adt', 'std::result::Result', 0, (a0[3][0],)) if a0[2] == 1 else ('adt', 'std::result::Result', 1, (args[1],)))
         if name.endswith('Option::<T>::is_some') and is_opt:
